@@ -150,6 +150,17 @@ CLAIMS = {
         "are outside the theorems: the same call is run under lazy x chunk sizes 1..beyond size x backend (flag toggled "
         "in-process) x float64/float32/int64 x whole/element-wise, exactly against the chunked integer model and against each "
         "other, including symmetry-reduced outer angles and distance matrices."),
+ "C19": dict(category="other", design_ref="DESIGN.md section 5 C19",
+   technique="Lean 4 theorems for the logical skeleton (subset, no duplicates, unit, local, reduced sample maps Z, Lipschitz covering lemma); the covering radius itself is measured against bounds fixed in advance",
+   text="NOT a proof-level claim. Lean theorems (all inputs) cover: a sample built as unique(filter inside grid) lies in the "
+        "region, has no duplicates and keeps every grid point inside; local samples stay within the requested angle; the "
+        "three-uniform-samples quaternion is unit; from_euler(0, theta, pi/2 - phi) rotates the sample Z axis exactly onto the "
+        "direction (theta, phi) (via C01's Bunge-matrix theorem); an L-Lipschitz image of a grid of mesh h covers within L.h. "
+        "The Lipschitz constants of the cubochoric/homochoric/Euler parametrisations are not proved, so the covering clause - "
+        "the heart of the property - is decided by measurement only: nearest-grid-point distance over stratified targets for "
+        "11 proper groups x 3 methods x resolutions, all S2 methods, and the reduced sample of all 38 groups, against "
+        "method-specific bounds (1.5 r, 2.2 r, 10 sqrt(r); S2 0.9 r, 5.4 sqrt(r)) measured once on the unchanged tree with "
+        ">= 25 % margin and committed as constants."),
 }
 REASONS = {}
 checks = []
